@@ -327,6 +327,72 @@ impl<'r> Gen<'r> {
             }
         }
     }
+    /// A fast retransmit that becomes pending while the learned window is 0, with something else to emit:
+    /// several segments in flight; a fresh partial ACK and three duplicates, where either all of them
+    /// advertise window 0 or a window update to 0 follows, all in one ingress burst (no dispatch in
+    /// between); peer data so that an ACK is owed; then the dispatch (sometimes first into a busy device).
+    /// Variants afterwards: the RTO fires while the retransmit is still pending; the window reopens.
+    fn fast_retransmit_zero_window(&mut self) {
+        let seq = self.p_seq(self.p_off);
+        let a0 = self.ack_now();
+        self.p_win = 65535;
+        self.seg(seq, a0, "", 65535, 0, "0".into(), Gen::plain_opts());
+        let n = *self.rng.pick(&[3000usize, 6000, 9000]);
+        self.ev(format!("send {}", n));
+        self.ev(format!("poll t={} b=-", self.t));
+        let (nxt, una) = match (self.s_nxt, self.last_ack_sent) {
+            (Some(n), Some(u)) => (n, u),
+            _ => return,
+        };
+        let span = sdiff(nxt, una);
+        if span <= 2 {
+            return;
+        }
+        let a = wadd(una, if self.rng.chance(1, 4) { 0 } else { self.rng.range(1, span - 1) });
+        let zero_first = self.rng.chance(1, 2);
+        let w = if zero_first { 0 } else { *self.rng.pick(&[536u16, 4096, 65535]) };
+        self.p_win = w;
+        for _ in 0..4 {
+            self.seg(seq, Some(a), "", w, 0, "0".into(), Gen::plain_opts());
+        }
+        if !zero_first || self.rng.chance(1, 4) {
+            self.seg(seq, Some(a), "", 0, 0, "0".into(), Gen::plain_opts());
+        }
+        self.p_win = 0;
+        // an ACK becomes owed
+        if self.rng.chance(4, 5) {
+            let len = self.rng.range(1, 50) as usize;
+            let po = self.p_off.to_string();
+            self.seg(seq, Some(a), "", 0, len, po, Gen::plain_opts());
+            self.p_off += len as i64;
+        }
+        match self.rng.below(4) {
+            0 => self.poll_refused(false),
+            1 => {
+                self.t += 10;
+                self.ev(format!("poll t={} b=-", self.t));
+            }
+            2 => {
+                self.ev(format!("poll t={} b=-", self.t));
+                self.t += 10;
+                self.ev(format!("poll t={} b=-", self.t));
+            }
+            _ => self.poll(),
+        }
+        if self.rng.chance(1, 3) {
+            // the retransmission timeout fires while the fast retransmit is still pending
+            self.poll_refused(true);
+        }
+        // the window reopens
+        let w = *self.rng.pick(&[1u16, 536, 4096, 65535]);
+        self.p_win = w;
+        let seq = self.p_seq(self.p_off);
+        self.seg(seq, Some(a), "", w, 0, "0".into(), Gen::plain_opts());
+        self.ev(format!("poll t={} b=-", self.t));
+        if self.rng.chance(1, 2) {
+            self.poll();
+        }
+    }
     /// data in flight, a fresh ACK of part of it, then duplicate ACKs: fast retransmit (often into a busy device)
     fn dup_ack_burst(&mut self) {
         let n = *self.rng.pick(&[600usize, 1500, 3000, 5000]);
@@ -661,7 +727,13 @@ impl<'r> Gen<'r> {
                     self.poll_refused(true); // zero-window probe into a busy device
                 }
             }
-            63 => self.dup_ack_burst(),
+            63 => {
+                if self.rng.chance(1, 2) {
+                    self.dup_ack_burst()
+                } else {
+                    self.fast_retransmit_zero_window()
+                }
+            }
             64 => self.zero_window_reopen(),
             65..=68 => {
                 // duplicate ACKs
